@@ -19,8 +19,8 @@ theorem pkiWrap_payload_refused (C : Cipher) (kind : PkiKind) (payload pwd salt 
   unfold pkiWrap
   rw [iterMin_eq, if_neg (by omega)]
   simp only [hp, ne_eq, not_false_eq_true, if_true]
-example : payloadCheck .privkey (List.replicate 16 1) = .badPrivkey ∧ payloadCheck .share (0 :: List.replicate 16 1) = .badSeckey ∧
-    payloadCheck .share (17 :: List.replicate 16 1) = .badSeckey ∧ payloadCheck .share (16 :: List.replicate 32 1) = .ok := by decide
+example : payloadCheck .privkey (List.replicate 16 1) = .badPrivkey ∧ payloadCheck .share (0 :: List.replicate 16 1) = .badSharekey ∧
+    payloadCheck .share (17 :: List.replicate 16 1) = .badSharekey ∧ payloadCheck .share (16 :: List.replicate 32 1) = .ok := by decide
 
 /-- WHAT OPENS A CONTAINER: Unwrap returns a payload only if belt-KWP accepted the encrypted data under the key
 PBKDF2 derives from the given password and the salt / iteration count FOUND IN THE CONTAINER, i.e. (C01
@@ -78,93 +78,53 @@ theorem pkiUnwrap_ok_kwp (C : Cipher) (hC : CipherOK C) (kind : PkiKind) (epki p
               have : c = pki.length := by simpa using hc
               rw [this]
 
-/-
-FULL STATEMENT (the two codec hypotheses are NOT proved here — see docs/C17.md "partial"):
-  ∀ kind payload pwd salt iter epki, salt.length = 8 →
-    pkiWrap C kind payload pwd salt iter = (.ok, epki) → pkiUnwrap C kind epki pwd = (.ok, some payload).
-Proved below: the same under the hypotheses that (1) bpkiPrivkeyDec/bpkiShareDec invert bpkiPrivkeyEnc/bpkiShareEnc on
-this payload and (2) bpkiEdataDec inverts bpkiEdataEnc on this (salt, iter) — two DER round trips through the SEQ
-anchors of the C08 container model (checked by the correspondence run and the C08 oracle, not by a theorem).  Everything
-else — PBKDF2 determinism, belt-KWP unwrap∘wrap (C01 `kwpUnwrap_kwpWrap`), the order and the codes of the checks,
-the first-octet rule of shares — is proved.
--/
-theorem pki_roundtrip_partial (C : Cipher) (hC : CipherOK C) (kind : PkiKind) (payload pwd salt epki : Bytes) (iter : Nat)
-    (hcodec1 : ∀ pki, pkiEnc kind payload = .ok pki → pkiDec kind pki = .ok (payload, pki.length))
-    (hcodec2 : ∀ edata e, Bee2V.C08.bpkiEdataEnc edata salt iter = .ok e → edataOpen e = .ok (edata, salt, iter))
+/-- ROUND TRIP of the password-protected containers: for every cipher with 16-octet blocks, every private key
+(24/32/48/64 octets) or share (17/25/33 octets, first octet 1..16), every password, every 8-octet salt and every
+iteration count ≥ 10000 (< 2^64) that bpkiPrivkeyWrap / bpkiShareWrap accept, bpkiPrivkeyUnwrap / bpkiShareUnwrap under
+the same password return the key.  DER codecs: C08 `ContRT` (PrivateKeyInfo, share, EncryptedPrivateKeyInfo round trips);
+belt-KWP: C01 `kwpUnwrap_kwpWrap`; PBKDF2 is a function of (password, salt, iterations). -/
+theorem pki_roundtrip (C : Cipher) (hC : CipherOK C) (kind : PkiKind) (payload pwd salt epki : Bytes) (iter : Nat)
+    (hsalt : salt.length = 8) (hiter : iter < 18446744073709551616)
     (h : pkiWrap C kind payload pwd salt iter = (.ok, epki)) :
     pkiUnwrap C kind epki pwd = (.ok, some payload) := by
-  unfold pkiWrap at h
-  dsimp only at h
-  by_cases hi : iter < Bee2V.Gen.C17Src.iterMin
-  · rw [if_pos hi] at h; cases h
-  · rw [if_neg hi] at h
-    by_cases hpc : payloadCheck kind payload ≠ .ok
-    · rw [if_pos hpc] at h
-      have := (Prod.mk.inj h).1
-      exact absurd this hpc
-    · rw [if_neg hpc] at h
-      have hpc' : payloadCheck kind payload = .ok := by simpa using hpc
-      cases he : pkiEnc kind payload with
-      | err => rw [he] at h; cases h
-      | oob => rw [he] at h; cases h
-      | ok pki =>
-        rw [he] at h; dsimp only at h
-        unfold epkiSeal at h
-        obtain ⟨e, o, hk⟩ : ∃ e o, Bee2V.C01.pbkdf2 C pwd iter salt = (e, o) := ⟨_, _, rfl⟩
-        rw [hk] at h
-        cases o with
-        | none =>
-          cases e <;> try (cases h)
-          unfold Bee2V.C01.pbkdf2 at hk
-          split at hk <;> cases hk
-        | some key =>
-          cases e <;> try (cases h)
-          dsimp only at h
-          obtain ⟨e2, o2, hw⟩ : ∃ e o, Bee2V.C01.kwpWrap C pki none key = (e, o) := ⟨_, _, rfl⟩
-          rw [hw] at h
-          cases o2 with
-          | none =>
-            cases e2 <;> try (cases h)
-            unfold Bee2V.C01.kwpWrap at hw
-            split at hw <;> cases hw
-          | some edata =>
-            cases e2 <;> try (cases h)
-            dsimp only at h
-            cases hee : Bee2V.C08.bpkiEdataEnc edata salt iter with
-            | err => rw [hee] at h; cases h
-            | oob => rw [hee] at h; cases h
-            | ok e3 =>
-              rw [hee] at h; cases h
-              -- the KWP facts: wrap succeeded, so the key length is admissible and the payload code has ≥ 16 octets
-              have hkw : ¬ (pki.length < 16 ∨ Bee2V.C01.validKeyLen key.length = false) := by
-                intro hb
-                have := (Bee2V.C01.kwpWrap_badInput_iff C pki none key).mpr hb
-                rw [hw] at this; cases this
-              have hk16 : 16 ≤ pki.length := by
-                have := not_or.mp hkw; omega
-              have hkv : Bee2V.C01.validKeyLen key.length = true := by
-                cases hv : Bee2V.C01.validKeyLen key.length
-                · exact absurd (Or.inr hv) hkw
-                · rfl
-              obtain ⟨tok, ht1, _, ht2⟩ := Bee2V.C01.kwpUnwrap_kwpWrap C hC pki none key hk16 hkv (by intro h hh; cases hh)
-              rw [hw] at ht1
-              have htok : tok = edata := by cases ht1; rfl
-              subst htok
-              unfold pkiUnwrap
-              rw [hcodec2 _ _ hee]; dsimp only
-              rw [hk]; dsimp only
-              rw [ht2]; dsimp only
-              rw [hcodec1 pki he]; dsimp only
-              rw [if_neg (by simp)]
-              -- the first-octet rule of shares was already enforced by Wrap
-              have hsh : ¬ (kind = .share ∧ ((payload.headD 0).toNat = 0 ∨ (payload.headD 0).toNat > 16)) := by
-                rintro ⟨hkd, hb⟩
-                subst hkd
-                simp only [payloadCheck] at hpc'
-                by_cases hb' : (payload.length ≠ 17 ∧ payload.length ≠ 25 ∧ payload.length ≠ 33) ∨
-                    (payload.headD 0).toNat = 0 ∨ (payload.headD 0).toNat > 16
-                · rw [if_pos hb'] at hpc'; cases hpc'
-                · exact hb' (Or.inr hb)
-              rw [if_neg hsh]
+  -- Wrap has checked the payload
+  have hpc : payloadCheck kind payload = .ok := by
+    unfold pkiWrap at h
+    dsimp only at h
+    by_cases hi : iter < Bee2V.Gen.C17Src.iterMin
+    · rw [if_pos hi] at h; exact absurd (Prod.mk.inj h).1 (by simp)
+    · rw [if_neg hi] at h
+      by_cases hp : payloadCheck kind payload ≠ .ok
+      · rw [if_pos hp] at h; exact absurd (Prod.mk.inj h).1 hp
+      · simpa using hp
+  refine pki_roundtrip_of_codec C hC kind payload pwd salt epki iter ?_ ?_ h
+  · intro pki he
+    cases kind with
+    | privkey =>
+      have hk : payload.length = 24 ∨ payload.length = 32 ∨ payload.length = 48 ∨ payload.length = 64 := by
+        simp only [payloadCheck] at hpc
+        by_cases hb : payload.length ≠ 32 ∧ payload.length ≠ 24 ∧ payload.length ≠ 48 ∧ payload.length ≠ 64
+        · rw [if_pos hb] at hpc; cases hpc
+        · omega
+      obtain ⟨st, hd, ho⟩ := Bee2V.C08.bpkiPrivkey_roundtrip payload pki hk he
+      have hl := Bee2V.C08.bpkiPrivkeyEnc_len payload pki hk he
+      refine ⟨?_, by omega⟩
+      simp only [pkiDec, hd, ho]
+    | share =>
+      have hk : payload.length = 17 ∨ payload.length = 25 ∨ payload.length = 33 := by
+        simp only [payloadCheck] at hpc
+        by_cases hb : (payload.length ≠ 17 ∧ payload.length ≠ 25 ∧ payload.length ≠ 33) ∨
+            (payload.headD 0).toNat = 0 ∨ (payload.headD 0).toNat > 16
+        · rw [if_pos hb] at hpc; cases hpc
+        · have := (not_or.mp hb).1; omega
+      obtain ⟨st, hd, ho⟩ := Bee2V.C08.bpkiShare_roundtrip payload pki hk he
+      have hl := Bee2V.C08.bpkiShareEnc_len payload pki hk he
+      refine ⟨?_, by omega⟩
+      simp only [pkiDec, hd, ho]
+  · intro edata e hed hee
+    obtain ⟨st, hd, ho, hn⟩ := Bee2V.C08.bpkiEdata_roundtrip edata salt e iter hsalt hiter hed hee
+    simp only [edataOpen, hd, ho, hn, ne_eq, not_true_eq_false, if_false]
+example : (pkiWrap ⟨fun _ x => x, fun _ x => x⟩ .privkey (List.replicate 32 7) [1, 2, 3] (List.replicate 8 9) 9999).1 = .badInput := by
+  decide +kernel
 
 end Bee2V.C17
